@@ -30,6 +30,7 @@ type Program struct {
 	NPkgs     int
 	NModFuncs int
 	callSites map[*ssa.Function][]*ssa.Call
+	fieldOwner map[*types.Var]*types.Named
 	otherRefs map[*ssa.Function]int
 	cg        *callgraph.Graph
 	allFuncs  map[*ssa.Function]bool
@@ -402,4 +403,63 @@ func fname(f *ssa.Function) string {
 	s = strings.ReplaceAll(s, modPath+"/", "")
 	s = strings.ReplaceAll(s, modPath+".", "")
 	return s
+}
+
+// baseFieldName returns the name the baseline symbol table knows a (possibly renamed) private
+// struct field by; for every other field its own name.
+func (p *Program) baseFieldName(f *types.Var) string {
+	if f == nil {
+		return ""
+	}
+	if len(baselineFields) == 0 || f.Pkg() == nil || !strings.HasPrefix(f.Pkg().Path(), modPath) {
+		return f.Name()
+	}
+	if p.fieldOwner == nil {
+		p.fieldOwner = map[*types.Var]*types.Named{}
+		for _, pk := range p.All {
+			if pk.Types == nil || !strings.HasPrefix(pk.PkgPath, modPath) {
+				continue
+			}
+			sc := pk.Types.Scope()
+			for _, nm := range sc.Names() {
+				tn, ok := sc.Lookup(nm).(*types.TypeName)
+				if !ok {
+					continue
+				}
+				named, ok := tn.Type().(*types.Named)
+				if !ok {
+					continue
+				}
+				st, ok := named.Underlying().(*types.Struct)
+				if !ok {
+					continue
+				}
+				for i := 0; i < st.NumFields(); i++ {
+					p.fieldOwner[st.Field(i)] = named
+				}
+			}
+		}
+	}
+	owner := p.fieldOwner[f]
+	if owner == nil {
+		return f.Name()
+	}
+	prefix := owner.Obj().Pkg().Path() + "." + owner.Obj().Name() + "."
+	if _, known := baselineFields[prefix+f.Name()]; known {
+		return f.Name()
+	}
+	rel := strings.TrimPrefix(strings.TrimPrefix(owner.Obj().Pkg().Path(), modPath), "/")
+	for k := range baselineFields {
+		if !strings.HasPrefix(k, prefix) {
+			continue
+		}
+		name := strings.TrimPrefix(k, prefix)
+		if strings.Contains(name, ".") {
+			continue
+		}
+		if p.FieldVar(rel, owner.Obj().Name(), name) == f {
+			return name
+		}
+	}
+	return f.Name()
 }
